@@ -342,8 +342,8 @@ def oracle_sel(I, q, classes):
 
 
 def oracle_pipe(I, q, classes):
-    if q["names"] is not None and any(n is not None for n in q["names"]):
-        return None
+    if q["names"] is not None and (any(n is not None for n in q["names"]) or len(q["names"]) != len(q["cks"])):
+        return None            # explicit names: no requirement to honour; a wrong number of names is the documented AssertionError
     v = q["kind"][1]
     if not (all(n in classes for n in q["prefs"]) and (v is None or 1 <= v <= I.latest)):
         return None
@@ -568,7 +568,7 @@ def run(ctx):
                  {"engine": eraw[i], "model_parts": parts, "names": I.names, "theorem_or_corr": "corr:C32:engine_agree"}, False)
 
     # ---- worlds
-    n_worlds = 10 if ctx.quick else 120
+    n_worlds = 10 if ctx.quick else 60
     n_sel, n_pipe = (45, 18) if ctx.quick else (60, 25)
     stats = {"worlds": n_worlds, "selection_requests": 0, "pipeline_requests": 0, "through_public_api": 0, "by_mode": {}, "outcomes": {},
              "pipeline_outcomes": {}, "pipeline_lengths": {}, "with_requirement": 0, "by_name": 0, "kind_versions": {},
